@@ -279,6 +279,19 @@ def check(pid, tier, seed, n_override=None):
     known_hit = []
 
     build = build_property(plugin, pid)
+    if tier == "thorough" and build["ok"] and build["obligations"] and not os.environ.get("VERIF_NO_COQCHK"):
+        # independent re-check of the property's theorems and everything they depend on
+        cmd = ["coqchk", "-silent", "-o", "-Q", C.COQ, "Boltons", "Boltons.Props.%s" % pid]
+        try:
+            rc_chk, out_chk = C.sh(cmd, timeout=2400)
+        except Exception as e:
+            rc_chk, out_chk = 124, "coqchk did not finish: %r" % (e,)
+        build["coqchk"] = {"cmd": " ".join(cmd), "rc": rc_chk, "output_tail": out_chk[-3000:]}
+        build["checker_cmd"].append(" ".join(cmd))
+        if rc_chk != 0:
+            build["ok"] = False
+            build["broken"] = "coqchk"
+            build["messages"].append(out_chk[-3000:])
 
     # ---- cases: corpus first, then generated --------------------------------
     corpus = C.load_corpus(pid)
@@ -448,6 +461,7 @@ def check(pid, tier, seed, n_override=None):
             "known_findings_hit": sorted(seen),
             "translators": build["messages"][:1],
             "canary": canary,
+            "coqchk": build.get("coqchk"),
             "exhaustive": bool(plugin.TIERS[tier].get("exhaustive", False)),
             "repo": C.REPO,
         },
